@@ -11,7 +11,6 @@ reproduced from its replay file in a fresh process), 2 harness error.
 Environment: VERIF_SEED (default 1), VERIF_TIER (quick|thorough), VERIF_WORKERS.
 """
 import argparse
-import array
 import json
 import os
 import signal
@@ -151,7 +150,6 @@ def run_workers(prop, seed, tier, total, nworkers, bindir, extra, stall_s, engin
                 w.fout.close()
                 crashes.append({"worker": w.wid, "kind": "hang", "rc": None, "index": idx, "lo": w.lo, "hi": w.hi})
     summaries = []
-    hashes = set()
     for w in workers:
         try:
             with open(w.out) as f:
@@ -160,12 +158,7 @@ def run_workers(prop, seed, tier, total, nworkers, bindir, extra, stall_s, engin
                         summaries.append(json.loads(line[8:]))
         except Exception as e:
             die("cannot read worker output: %s" % e)
-        if os.path.exists(w.hashes):
-            a = array.array("Q")
-            with open(w.hashes, "rb") as f:
-                data = f.read()
-            a.frombytes(data[: len(data) // 8 * 8])
-            hashes.update(a)
+    hashes = HashSummary([w.hashes for w in workers if os.path.exists(w.hashes)])
     ok_workers = len(workers) - len(crashes)
     if len(summaries) != ok_workers:
         die("%d workers finished but %d summaries were read (worker output: %s)" % (ok_workers, len(summaries), tmp))
@@ -173,6 +166,32 @@ def run_workers(prop, seed, tier, total, nworkers, bindir, extra, stall_s, engin
     if not crashes:
         subprocess.run(["rm", "-rf", tmp])
     return summaries, crashes, hashes, tmp
+
+
+class HashSummary:
+    """Distinct event-log hashes of a batch: the workers' sorted hex files are merged with
+    `sort -m -u`; only the count and a digest of the merged stream are kept."""
+
+    def __init__(self, files):
+        self.count, self.digest = 0, ""
+        if not files:
+            return
+        import hashlib
+        env = dict(os.environ, LC_ALL="C")
+        p = subprocess.Popen(["sort", "-m", "-u"] + files, stdout=subprocess.PIPE, env=env)
+        h = hashlib.sha256()
+        n = 0
+        while True:
+            chunk = p.stdout.read(1 << 20)
+            if not chunk:
+                break
+            n += chunk.count(b"\n")
+            h.update(chunk)
+        p.wait()
+        self.count, self.digest = n, h.hexdigest()
+
+    def __len__(self):
+        return self.count
 
 
 def confirm_crash(prop, seed, tier, crash, bindir, extra, stall_s, engine=None):
@@ -278,7 +297,7 @@ def check(prop, tier, seed, nworkers, scale):
         sigs = []
         for nw in (2, 5):
             s3, c3, h3, _ = run_workers(prop, seed, tier, 600, nw, BIN, [], stall_s)
-            sigs.append((len(c3), tuple(sorted(h3)), json.dumps(merge_counters(s3), sort_keys=True)))
+            sigs.append((len(c3), h3.count, h3.digest, json.dumps(merge_counters(s3), sort_keys=True)))
         determinism = sigs[0] == sigs[1]
         if not determinism:
             die("determinism self-check failed: the same seeds produced different event logs in two executions")
@@ -485,9 +504,9 @@ def selfcheck(seed, runs):
             summaries, crashes, hashes, _ = run_workers(prop, seed, "quick", runs, nw, BIN, [], 120)
             if crashes:
                 die("selfcheck: worker crash for %s" % prop)
-            sigs.append((tuple(sorted(hashes)), json.dumps(merge_counters(summaries), sort_keys=True), sum(s["ticks"] for s in summaries)))
+            sigs.append(((hashes.count, hashes.digest), json.dumps(merge_counters(summaries), sort_keys=True), sum(s["ticks"] for s in summaries)))
         same = sigs[0] == sigs[1] == sigs[2]
-        log("selfcheck %s: %d runs x (3,16,16 workers): %s (%d distinct logs)" % (prop, runs, "identical" if same else "DIFFERENT", len(sigs[0][0])))
+        log("selfcheck %s: %d runs x (3,16,16 workers): %s (%d distinct logs)" % (prop, runs, "identical" if same else "DIFFERENT", sigs[0][0][0]))
         if not same:
             bad += 1
     if bad:
